@@ -3,7 +3,7 @@ EXTENDS HttpGate, Json
 NoNext == FALSE /\ UNCHANGED vars
 EmitScn == pc = "recv" => PrintT(<<"SCN", ToJson([req |-> req])>>)
 Integs == {"aiohttp", "flask", "werkzeug"}
-Medias == {[base |-> b, variant |-> v] : b \in Documented, v \in {"plain", "charset", "upper", "charset_upper", "spaces", "charset_ascii", "charset_latin1"}}
+Medias == {[base |-> b, variant |-> v] : b \in Documented, v \in {"plain", "charset", "upper", "charset_upper", "spaces", "charset_ascii", "charset_latin1", "charset_unknown"}}
           \cup {[base |-> b, variant |-> "plain"] : b \in {"application/jsonx", "application/json-rpc2", "text/json", "text/plain",
                                                         "application/vnd.api+json", "application/x-www-form-urlencoded", "missing", "json", "application/jsonrequests"}}
           \cup {[base |-> "text/plain", variant |-> "charset"]}
